@@ -2,6 +2,7 @@
 from __future__ import annotations
 
 import pymbolic.primitives as p
+from immutabledict import immutabledict
 
 from ..core import Failure, Prop, Stream
 from ..gen import node_types, size
@@ -171,6 +172,10 @@ def offender(m):
                                                   + (p.Variable("q8"),)))
             if not hard_problem(m2):
                 return "slice-trailing-omitted"
+    if isinstance(m, p.CallWithKwargs) and not m.kw_parameters:
+        m2 = p.Call(m.function, m.parameters)
+        if not hard_problem(m2):
+            return "no-keywords"
     kids = [c for c in syntax_children(m)
             if isinstance(c, (p.Expression, tuple)) and not isinstance(c, p.Variable)]
     for c in kids:
@@ -180,6 +185,9 @@ def offender(m):
                 if d is not c:
                     m2 = replace_child(m2, d, p.Variable(f"q{i}"))
             if hard_problem(m2):
+                # a one-operand n-ary node prints as its operand: name what is really printed
+                while isinstance(c, NARY) and len(c.children) == 1:
+                    c = c.children[0]
                 return kind(c)
         except Exception:
             pass
@@ -195,6 +203,11 @@ class PrintStream(Stream):
         seen = set()
         for tag, e in two_level():
             yield {"expr": dumps(expr_to_sx(e)), "src": "two-level:" + tag}
+        # directed shapes the Lean fragment excludes (PV.C06.callKw_empty_cex, list_of_tuple_cex)
+        a, b, f = p.Variable("a"), p.Variable("b"), p.Variable("f")
+        for e in (p.CallWithKwargs(f, (a,), immutabledict()), p.CallWithKwargs(f, (), immutabledict()),
+                  p.Sum((p.CallWithKwargs(f, (a, b), immutabledict()), 1)), [(a, b)], ((a, b),), [a, (a, b)]):
+            yield {"expr": dumps(expr_to_sx(e)), "src": "directed"}
         n3 = 1500 if tier == "quick" else 40000
         for e in three_level(rng, n3):
             yield {"expr": dumps(expr_to_sx(e)), "src": "three-level"}
@@ -303,12 +316,53 @@ class ParseStream(Stream):
         acc["outcomes"][k] = acc["outcomes"].get(k, 0) + 1
 
 
+class FragmentStream(Stream):
+    """the fragment of the Lean theorems `roundtrip_current` / `roundtrip_flat_current`
+    (computed by the model from the regenerated tables) against the real code: a tree INSIDE the
+    proved fragment must survive the round trip of the real stringifier and parser; outside
+    the fragment nothing is claimed.  The statistics say how much of the generated population the
+    theorems cover."""
+    name = "fragment"
+
+    def cases(self, rng, tier):
+        for tag, e in two_level():
+            yield {"expr": dumps(expr_to_sx(e)), "src": "two-level:" + tag}
+        for e in three_level(rng, 800 if tier == "quick" else 20000):
+            yield {"expr": dumps(expr_to_sx(e)), "src": "three-level"}
+        g = SyntaxGen(rng)
+        for _ in range(1500 if tier == "quick" else 30000):
+            yield {"expr": dumps(expr_to_sx(g.gen(rng.randint(2, 8)))), "src": "random"}
+
+    def request(self, pl):
+        return f"(fragment {pl['expr']})"
+
+    def run_impl(self, pl):
+        e = sx_to_expr(loads(pl["expr"]))
+        return "(ok)" if roundtrip_problem(e) is None else "(fail)"
+
+    def agree(self, model, impl, pl):
+        if model in ("(in)", "(flat)"):
+            return "ok" if impl == "(ok)" else "diff"
+        return "trivial"
+
+    def shrink(self, pl):
+        for s in sx_shrinks(loads(pl["expr"])):
+            yield {**pl, "expr": dumps(s)}
+
+    def nontrivial_key(self, pl, model, impl):
+        return pl["expr"] if model in ("(in)", "(flat)") else None
+
+    def stats(self, pl, mo, io, acc):
+        k = mo.strip("()") + "/" + io.strip("()")
+        acc[k] = acc.get(k, 0) + 1
+
+
 PROP = Prop(
     id="C06",
     title="Printing an expression and parsing the text gives the expression back",
     lean_targets=["PV.Properties.C06"],
     extractors=[extract],
-    streams=[PrintStream(), ParseStream()],
+    streams=[PrintStream(), ParseStream(), FragmentStream()],
     trusted_base=["Lean 4.33 kernel; axioms propext, Classical.choice, Quot.sound only",
                   "the real lexer (pytools.lex with Parser.lex_table) supplies the tokens: the "
                   "lexer is tied by correspondence only",
